@@ -16,6 +16,8 @@ from .engine import FIELDS, CLASS_IDS
 
 TK = z3.Function("to_key", INT, KS)
 TV = z3.Function("to_value", INT, INT)
+REPK = z3.Function("representable_key", INT, BOOL)
+REPV = z3.Function("representable_value", INT, BOOL)
 
 
 class Contract:
@@ -263,6 +265,10 @@ class SpecMixin:
             return SV("K", z3.Real("nokey"))     # marker/None: never used
         if f == "to_value":
             return args[0] if args[0].kind == "V" else SV("V", TV(args[0].z))
+        if f == "key_ok":      # representable(T_key, x): C13's predicate, abstract here
+            return mk_bool(REPK(args[0].z) if args[0].kind == "any" else z3.BoolVal(args[0].kind == "K"))
+        if f == "value_ok":
+            return mk_bool(REPV(args[0].z) if args[0].kind == "any" else z3.BoolVal(args[0].kind in ("V", "none")))
         if f == "is_none":
             return mk_bool(self.same(st, args[0], NONE))
         if f == "list_eq":
